@@ -8,6 +8,9 @@ Proof. reflexivity. Qed.
 Lemma nthN_cons {A} (x : A) l i : nthN (x :: l) i = if i =? 0 then Some x else nthN l (i - 1).
 Proof. reflexivity. Qed.
 
+Lemma nthN_S {A} (x : A) l i : nthN (x :: l) (i + 1) = nthN l i.
+Proof. cbn [nthN]. destruct (i + 1 =? 0) eqn:E; [lia|]. f_equal. lia. Qed.
+
 Lemma nthN_app {A} (l1 l2 : list A) i :
   nthN (l1 ++ l2) i = if i <? lenN l1 then nthN l1 i else nthN l2 (i - lenN l1).
 Proof.
